@@ -382,7 +382,10 @@ def rule_file_checkers(ctx):
             helper_pos[b.id] = frozenset(got)
             R.ob('F7-openread', OR + '::' + name, got == w, 'OpenRead::%s answers positively exactly for %s' % (name, sorted(w)) if got == w else 'OpenRead::%s answers positively for %s, expected %s' % (name, sorted(got), sorted(w)), ctx.where(b), props=P)
     R.floor('F7', 'OpenRead helpers', n7, 4, props=P)
-    nb = F.body_by_path(OR + '::new')
+    # the constructor of the reader: the inherent function of OpenRead (whatever its name) that builds its variants from a path
+    ctors = [b_ for b_ in F.bodies.values() if b_.impl_self == OR and not b_.impl_trait and b_.kind == 'AssocFn' and OR.split('::')[-1] in b_.local_ty(0)
+             and any(d_[0] == 'stmt' and d_[3]['k'] == 'aggr' and d_[3]['ak'].get('adt', '').endswith('OpenRead') for ds_ in b_.defs.values() for d_ in ds_)]
+    nb = ctors[0] if len(ctors) == 1 else F.body_by_path(OR + '::new')
     if nb is not None:
         inf = ctx.infeasible(nb)
         built = {}
